@@ -192,6 +192,9 @@ func genLargeHistory(t *rapid.T, x *parserExec, parseNil bool) {
 		default:
 			n = minInt(n, 1+rapid.IntRange(0, 5_000).Draw(t, "chunkSmall"))
 		}
+		if n < 0 {
+			n = 0 // a buffer that holds more than BufferSize (reported by C15) leaves no room
+		}
 		before := len(x.fed)
 		if rapid.Bool().Draw(t, "viaReader") {
 			rs := ReaderScript{Data: stream[pos : pos+n]}
